@@ -195,3 +195,8 @@ Proof.
         apply N.log2_lt_pow2; [lia|exact Hb]. }
       apply Hl; auto.
 Qed.
+
+(** with the accumulator made unsigned (hooks/fix-matid-unsigned.patch) the value the engine
+    holds is the exact identifier modulo 2^32 read as [int]: incremental = from scratch *)
+Lemma matid_wrap_consistent zk p : Consistent zk p -> wrapInt (matId p) = wrapInt (matIdOf (squares p)).
+Proof. intro C. destruct C. rewrite c_matId. reflexivity. Qed.
